@@ -11,4 +11,5 @@ CONSTANTS
   MaxCalls = 0
   Execs = {}
   Stateless = TRUE
+  FreshArrays = TRUE
 INVARIANTS Emit
